@@ -63,6 +63,58 @@ def classify(p):
     return 'flow'
 
 
+def unit_pde():
+    """C01: the ODE right-hand side g(xi, y) is the similarity reduction of the Euler equations for the physical fields that state() builds from (V, C, R):
+    substituting rho = rho0 R(xi), u = V(xi) r^(1-lambda)/(-xi lambda), c = C(xi) r^(1-lambda)/(-xi lambda), p = rho c^2/gamma, xi = tau / r^lambda into the PDEs
+    and replacing (V', C', R') by the coded right-hand side gives identically zero.  Time variable: the documented Lazarus time tau = t/0.750024322 - 1."""
+    import ast
+    from vc import sx
+    MODN = 'exactpack.solvers.guderley.ramsey'
+    res = {'obligations': [], 'functions': functions() + [{'ref': 'exactpack/solvers/guderley/ramsey.py::g', 'sha256_16': R.source_hash(R.func_ref('exactpack/solvers/guderley/ramsey.py::g'))},
+                                                          {'ref': 'exactpack/solvers/guderley/ramsey.py::guderley_1d', 'sha256_16': R.source_hash(R.func_ref('exactpack/solvers/guderley/ramsey.py::guderley_1d'))}], 'engine_errors': []}
+    O = res['obligations']
+    tau = sp.Symbol('tau', negative=True); nu = sp.Symbol('nu', integer=True, nonnegative=True); xs = sp.Symbol('xi_', negative=True)
+    Vs, Cs, Rs = sp.symbols('V_ C_ R_', real=True)
+    fv = R.func_ref('exactpack/solvers/guderley/ramsey.py::g')
+    def thunk(run):
+        run.gstore[(MODN, 'gamma')] = gam; run.gstore[(MODN, 'lambda_')] = lam; run.gstore[(MODN, 'nu')] = nu
+        I = sx.Interp(run); return I.call_func(fv, [xs, Vec([Vs, Cs, Rs])], {})
+    try:
+        gp = [p for p in sx.explore(thunk, hyps=[gam > 1], feas=extract.default_feas) if p.outcome == 'return']
+        if len(gp) != 1: raise Unsupported('g(): %d paths' % len(gp))
+        yp = [sp.sympify(q) for q in gp[0].value.items]
+        ps, calls = paths()
+    except Unsupported as u_:
+        O.append(core.Obl('C01/guderley/extraction', 'open', 'extraction', 0.0, detail=str(u_)[:300])); return res
+    V = sp.Function('V'); C = sp.Function('C'); Rf = sp.Function('R'); X = tau / r ** lam
+    flows = [p for p in ps if classify(p) == 'flow']
+    for i, p in enumerate(flows):
+        den, vel, pres, snd, sie = [sp.sympify(q) for q in p.value]
+        # the end state of the (last) integration of this branch is the similarity solution at xi: Y_j(xi) -> (V, C, R)(xi)
+        fs = sorted({f for q in (den, vel, pres) for f in q.atoms(sp.core.function.AppliedUndef)}, key=str)
+        rep = {}
+        for f in fs:
+            j = int(f.func.__name__[1]); rep[f] = (V, C, Rf)[j](X)
+        rho, u, pr = [q.subs(rep).subs(xi, X) for q in (den, vel, pres)]
+        eqs = {'pde:mass': sp.diff(rho, tau) + sp.diff(rho * u, r) + nu * rho * u / r, 'pde:momentum': sp.diff(u, tau) + u * sp.diff(u, r) + sp.diff(pr, r) / rho,
+               'pde:entropy': sp.diff(pr / rho ** gam, tau) + u * sp.diff(pr / rho ** gam, r)}
+        for nm, e in eqs.items():
+            e = e.doit()
+            for F, ypi in ((V, yp[0]), (C, yp[1]), (Rf, yp[2])):
+                e = e.replace(lambda z: isinstance(z, sp.Subs) and z.expr.func == sp.Derivative and z.expr.args[0].func == F, lambda z: ypi.subs({xs: X, Vs: V(X), Cs: C(X), Rs: Rf(X)}))
+            e = e.subs({V(X): Vs, C(X): Cs, Rf(X): Rs})
+            if e.atoms(sp.Subs, sp.Derivative):
+                O.append(core.Obl('C01/guderley/branch%d/%s' % (i, nm), 'open', 'extraction', 0.0, detail='derivative atoms left')); continue
+            o = core.prove_zero('C01/guderley/branch%d/%s' % (i, nm), e, [gam > 1, Rs > 0, sp.Ne(Cs ** 2 - (Vs + 1) ** 2, 0)] + [c for c in p.pc if not c.has(xi)], extra_syms={Vs, Cs, Rs},
+                                goal_text={'pde:mass': 'rho_tau + (rho u)_r + nu rho u / r == 0', 'pde:momentum': 'u_tau + u u_r + p_r / rho == 0', 'pde:entropy': '(p/rho^gamma)_tau + u (p/rho^gamma)_r == 0'}[nm] + ' with (V, C, R)\' = g(xi, (V, C, R))')
+            o.pop('cex_raw', None); O.append(o)
+    # the driver: xi = (t/factorC - 1)/r^lambda and state() gets the caller's rho0, geometry, gamma
+    fd = R.func_ref('exactpack/solvers/guderley/ramsey.py::guderley_1d'); src = ast.unparse(fd.node).replace(' ', '')
+    ok = all(q in src for q in ('tee=t/factorC-1.0', 'targetx=tee/rpos**lambda_', 'rpos=r[i]', 'state(rpos,rho0,ngeom,gamma,lambda_,B,targetx)', 'lambda_=eexp(ngeom,gamma)', 'den[i]=deni', 'vel[i]=veli', 'pres[i]=presi'))
+    O.append(core.structural('C01/guderley/driver', ok, 'guderley_1d(): tee, targetx, state call, index stores', None, 'ast-structural', 'xi = (t/factorC - 1)/r^lambda with the similarity exponent of (geometry, gamma); every point goes through state() with the caller\'s parameters'))
+    return res
+
+
 def unit(pid):
     res = {'obligations': [], 'functions': functions(), 'engine_errors': []}; O = res['obligations']
     try: ps, calls = paths()
